@@ -48,6 +48,8 @@ def dispatch (op : String) (j : Json) : R Json :=
   | "deepRoundTrip" => opDeepRoundTrip j
   | "deepWF" => opDeepWF j
   | "deepRead" => opDeepRead j
+  | "deepGobRoundTrip" => opDeepGobRoundTrip j
+  | "deepGobWF" => opDeepGobWF j
   | "textWrite" => opTextWrite j
   | "textRead" => opTextRead j
   | "unmarshalText" => opUnmarshalText j
